@@ -112,8 +112,20 @@ def filesExec (fs ths sch : List Sexp) : String :=
         String.join (lows.map fun ch => s!" {hexOfString (String.singleton ch)}={c.reads.count (typeKey ch)}")
   | _, _, _ => "bad-op"
 
+/-- `cacherace`: `none` when every lazily initialised field found in the anchored files (outside the recorded known
+    finding) is only ever assigned a complete value, otherwise the offending site (the implementation side answers `none`) -/
+def cacherace : String :=
+  match Pcore.LazyCache.publishOffender Pcore.LazyCache.knownPublishFirst Pcore.Generated.cacheSites with
+  | none => "none"
+  | some s => s!"publish-before-init: {s.fn} assigns {s.field} and completes the object afterwards (a reader outside the lock gets it half-built)"
+
 def exec : List Sexp → String
   | [.atom "lockrace"] => lockrace
+  | [.atom "cacherace"] => cacherace
+  | [.atom "structrace", n, r] =>        -- free-running on the implementation side; on a correct tree the only answer
+    match n.nat?, r.nat? with
+    | some n, some r => if n = 0 ∨ r = 0 ∨ n > 100000 ∨ r > 50 then "bad-op" else "full"
+    | _, _ => "bad-op"
   | [.atom "files", .list (.atom "files" :: fs), .list (.atom "threads" :: ths), .list (.atom "sched" :: sch)] => filesExec fs ths sch
   | [.atom "cache", .list [.atom "val", v], .list (.atom "threads" :: ths), .list (.atom "sched" :: sch)] => cacheExec v ths sch
   | [.atom "sched", .list (.atom "tree" :: nodes), .list (.atom "threads" :: ths), .list (.atom "sched" :: sch)] =>
